@@ -1,6 +1,7 @@
 import MJ.Model.UndefVm
 /-! Line driver for C12.  Input: the harness lines
-`stream<TAB>id<TAB>label<TAB>template<TAB>r0<TAB>r1<TAB>r2<TAB>r3<TAB>prog`; for every line with a
+`stream<TAB>id<TAB>label<TAB>template<TAB>r0<TAB>r1<TAB>r2<TAB>r3<TAB>prog` (after a line
+`ctx<TAB>value` giving the shared context); for every line with a
 `prog` ≠ `-` the model runs the REAL instruction stream under the four modes and prints
 `id<TAB>m0<TAB>m1<TAB>m2<TAB>m3` (`ok:<hex output>` | `err:<kind>` | `unsupported:<what>`);
 other lines print `id<TAB>-`.  A first line `matrix` prints the helper matrix as the model sees it. -/
@@ -122,13 +123,16 @@ partial def parseInstrs : Nat → Toks → List Instr → Option (List Instr)
     | some (i, r) => parseInstrs n r (i :: acc)
     | none => none
 
-def parseProg (toks : Toks) : Option (St × Array Instr) :=
+def parseProg (ctx : List (String × V)) (toks : Toks) : Option (St × Array Instr) :=
   match toks with
-  | "C" :: r => match parseValue r with
-    | some (.map ctx, "F" :: f :: "N" :: n :: r) => match n.toNat? with
-      | some n => (parseInstrs n r []).map (fun is => ({ ctx := ctx, customFormatter := f == "1" }, is.toArray))
-      | none => none
-    | _ => none
+  | "C" :: "@" :: "F" :: f :: "N" :: n :: r => match n.toNat? with
+    | some n => (parseInstrs n r []).map (fun is => ({ ctx := ctx, customFormatter := f == "1" }, is.toArray))
+    | none => none
+  | _ => none
+
+def parseCtx (toks : Toks) : Option (List (String × V)) :=
+  match parseValue toks with
+  | some (.map ctx, []) => some ctx
   | _ => none
 
 def showRes : Except Err St → String
@@ -141,11 +145,11 @@ def showRes : Except Err St → String
   | .error .outOfFuel => "unsupported:fuel"
   | .error .stack => "model-error:stack"
 
-def handle (line : String) : String :=
+def handle (ctx : List (String × V)) (line : String) : String :=
   match line.splitOn "\t" with
   | [_, id, _, _, _, _, _, _, prog] =>
     if prog = "-" then s!"{id}\t-" else
-    match parseProg (prog.splitOn " ") with
+    match parseProg ctx (prog.splitOn " ") with
     | some (s, code) =>
       let rs := Mode.all.map (fun m => showRes (runVm code m 200000 s))
       id ++ "\t" ++ "\t".intercalate rs
@@ -174,15 +178,20 @@ def matrixLines : List String :=
     row "slice(undefined)" (fun m => showChk (sliceChk m .undef)),
     row "slice(silent)" (fun m => showChk (sliceChk m .silent)) ]
 
-partial def loop (h : IO.FS.Stream) (out : IO.FS.Stream) : IO Unit := do
+partial def loop (h : IO.FS.Stream) (out : IO.FS.Stream) (ctx : List (String × V)) : IO Unit := do
   let line ← h.getLine
   if line.isEmpty then return ()
   let l := (line.dropEndWhile (· == '\n')).toString
   if l = "matrix" then
     for m in matrixLines do out.putStrLn ("matrix\t" ++ m)
+    loop h out ctx
+  else if l.startsWith "ctx\t" then
+    match parseCtx ((l.drop 4).toString.splitOn " ") with
+    | some c => loop h out c
+    | none => out.putStrLn "bad-ctx"; loop h out ctx
   else
-    out.putStrLn (handle l)
-  loop h out
+    out.putStrLn (handle ctx l)
+    loop h out ctx
 
 def main : IO Unit := do
-  loop (← IO.getStdin) (← IO.getStdout)
+  loop (← IO.getStdin) (← IO.getStdout) []
